@@ -93,6 +93,9 @@ def totp_corpus():
         long += [B("a", 3)]                          # still locked
         long = long[:-2] if False else long
     s.append(long)
+    # 13. sixteen goroutines submit the right code at the same moment: at most one is accepted
+    s.append(["catt a 0 auto 16", B("a", 3), "catt a 40 auto 16"] + [B("a", 3) for _ in range(5)] +
+             ["catt a 3 auto 16", "catt a 3600 auto 16", "catt b 0 auto 16", "catt b 1 auto 16", "catt b 1 auto 4"])
     return s
 
 
@@ -120,7 +123,9 @@ def gen_totp(rng, nseq, maxlen):
             if i == 0:
                 gap = 0
             ctr = "same" if rng.random() < 0.08 else "auto"
-            if rng.random() < 0.1 and u not in hdone:
+            if rng.random() < 0.03:
+                ops.append("catt %s %d auto %d" % (u, gap, rng.choice([2, 4, 16])))
+            elif rng.random() < 0.1 and u not in hdone:
                 via = rng.choice(["verify", "auth"])
                 if code == "good":
                     hdone.add(u)
@@ -211,7 +216,7 @@ def run(ctx):
 
     def canon_model(i):
         k = ops[i].split()[0]
-        return " ".join(model[i].split()[:6]) if k in ("att", "hatt") else model[i]
+        return " ".join(model[i].split()[:6]) if k in ("att", "hatt", "catt") else model[i]
 
     cmp_idx = [i for i, o in enumerate(ops) if o.split()[0] != "burst" and i not in skip]
     c.diff_streams(ctx, "rate.Limiter.AllowN / validateUserTOTP / TOTP handlers vs KM.RateLimit.allowStep / step",
@@ -257,6 +262,21 @@ def run(ctx):
                 continue
             jops.append("ev %s %s %s %s" % (f[1], f[2], g[0], g[2]))
             jmeta.append(i)
+        elif k == "catt":
+            if i in skip:
+                continue
+            g = canon_impl(i).split()
+            if len(g) != 6:
+                ctx.broken.append("TOTP op %r answered %r" % (o, impl[i]))
+                jops.append("ev %s %s 0 0" % (f[1], f[2]))
+                jmeta.append(i)
+                continue
+            trues = int(g[0])
+            jops.append("ev %s %s %s %s" % (f[1], f[2], "1" if trues else "0", g[2]))
+            jmeta.append(i)
+            for _ in range(trues - 1):   # every further acceptance is a second evaluation at the same instant
+                jops.append("ev %s 0 1 0" % f[1])
+                jmeta.append(i)
     verdicts = c.run_driver(ctx, "judge", jops)
     block_of = {}
     for bi, (k, s, e) in enumerate(blocks):
@@ -293,7 +313,7 @@ def run(ctx):
     distinct = set()
     for i, o in enumerate(ops):
         f = o.split()
-        if f[0] in ("att", "hatt"):
+        if f[0] in ("att", "hatt", "catt"):
             m = model[i].split()
             tot_att += 1
             outcomes[m[6]] = outcomes.get(m[6], 0) + 1
@@ -313,7 +333,8 @@ def run(ctx):
                 "limiter sequences over %d (rate,burst) pairs with drain/steady/mixed/backwards time; real-time bursts through 4 entry points" % len(set((r, b) for r, b, _, _ in bseqs)),
         "totp_sequences": len(tseqs), "totp_attempts": tot_att, "totp_outcomes": outcomes, "totp_max_failcount": fcmax,
         "totp_lockouts_started": kth, "totp_via_handlers": sum(1 for o in ops if o.startswith("hatt")),
-        "totp_ops_moved_off_threshold": sum(1 for a, b in zip(raw, ops) if a.split()[0] in ("att", "hatt") and a.split()[2] != b.split()[2]),
+        "totp_concurrent_submissions": sum(1 for o in ops if o.startswith("catt")),
+        "totp_ops_moved_off_threshold": sum(1 for a, b in zip(raw, ops) if a.split()[0] in ("att", "hatt", "catt") and a.split()[2] != b.split()[2]),
         "totp_ops_skipped_slow": len(skip),
         "limiter_sequences": len(bseqs), "limiter_calls": len(at_idx),
         "limiter_admitted": sum(1 for i in at_idx if impl[i] == "1"), "limiter_refused": sum(1 for i in at_idx if impl[i] == "0"),
